@@ -35,3 +35,19 @@ Definition obs_of_word (w : list N) : obs :=
 
 Definition c03_ok (o : obs) : bool :=
   match o with ObsOk | ObsExc => true | _ => false end.
+
+(* History independence (SEQ cases): Message::factory is a function of its input, so whatever an
+   answer mentions must come from that input:
+     - the text an InvalidMessage exception carries is the input itself (up to its first NUL) or a
+       piece of it (the MsgType text) -- stack bytes left by earlier calls are not;
+     - a returned message has the type the input names in a "35=<type>|" token. *)
+Fixpoint is_prefix (a l : list N) : bool :=
+  match a, l with
+  | [], _ => true
+  | x :: a', y :: l' => (x =? y) && is_prefix a' l'
+  | _ :: _, [] => false
+  end.
+Fixpoint is_infix (a l : list N) : bool :=
+  is_prefix a l || match l with [] => false | _ :: l' => is_infix a l' end.
+Definition c03_seq_exc_ok (input arg : list N) : bool := is_infix arg input.
+Definition c03_seq_msg_ok (input msgtype : list N) : bool := is_infix ([51; 53; 61] ++ msgtype ++ [1]) input.
